@@ -119,7 +119,7 @@ def make_replay(verif, pid, r, oid):
     inputs = harness_inputs(trace)
     fam = family_of(u.id)
     native = None
-    if fam and (inputs or oid.endswith('.reachability.normal_return') or fam.get('src') in ('replay_bt.cpp', 'replay_fp.cpp', 'replay_ili.cpp', 'replay_nest.cpp', 'replay_c16.cpp', 'replay_c16f.cpp', 'replay_gz.cpp')):
+    if fam and (inputs or oid.endswith('.reachability.normal_return') or fam.get('src') in ('replay_bt.cpp', 'replay_fp.cpp', 'replay_ili.cpp', 'replay_nest.cpp', 'replay_dname.cpp', 'replay_ip.cpp', 'replay_c16.cpp', 'replay_c16f.cpp', 'replay_gz.cpp')):
         native = run_native(verif, fam, u.id, inputs)
     confirmed = bool(native and native.get('ran') and native.get('misbehaves'))
     fn = re.sub(r'[^A-Za-z0-9_.@-]', '_', '%s-%s-%s.json' % (pid, uid, oid))
@@ -351,6 +351,8 @@ FAMILIES['w.'] = {'name': 'w', 'custom': writer_replay}
 
 FAMILIES['bt.eqhash.MalformedMessageData'] = {'name': 'bt', 'src': 'replay_bt.cpp', 'argv': lambda u, i: []}
 
+FAMILIES['txt.get_readable_dname'] = {'name': 'dname', 'src': 'replay_dname.cpp', 'argv': lambda u, i: []}
+FAMILIES['txt.get_readable_ip_address'] = {'name': 'ip', 'src': 'replay_ip.cpp', 'argv': lambda u, i: []}
 FAMILIES['c03.recursion'] = {'name': 'nest', 'src': 'replay_nest.cpp', 'argv': lambda u, i: [200000]}
 
 FAMILIES['r.IndexListItem'] = {'name': 'ili', 'src': 'replay_ili.cpp', 'argv': lambda u, i: []}
